@@ -191,15 +191,31 @@ pub fn run_pool(cfg: &PoolConfig, tasks: Vec<Value>) -> PoolResult {
                         let status = status.clone();
                         let timeout = cfg.case_timeout;
                         std::thread::spawn(move || {
+                            // A case "hangs" when the worker has burnt `timeout` of CPU time on it
+                            // (wall time is no measure on a loaded machine), or when it made no
+                            // progress for 20x that long in wall time (blocked without using CPU).
+                            let cpu_ticks = |pid: i32| -> u64 {
+                                let Ok(st) = std::fs::read_to_string(format!("/proc/{pid}/stat")) else { return 0 };
+                                let Some(rp) = st.rfind(')') else { return 0 };
+                                let f: Vec<&str> = st[rp + 1..].split_whitespace().collect();
+                                // after ')' the fields start at index 0 = state (field 3): utime = field 14, stime = 15
+                                let ut: u64 = f.get(11).and_then(|x| x.parse().ok()).unwrap_or(0);
+                                let stt: u64 = f.get(12).and_then(|x| x.parse().ok()).unwrap_or(0);
+                                ut + stt
+                            };
+                            // SAFETY: sysconf is always safe to call.
+                            let hz = unsafe { libc::sysconf(libc::_SC_CLK_TCK) }.max(1) as u64;
                             let mut last = (u64::MAX, u64::MAX);
                             let mut since = Instant::now();
+                            let mut cpu_at = cpu_ticks(pid);
                             while in_flight.load(Ordering::SeqCst) {
                                 std::thread::sleep(Duration::from_millis(100));
                                 let cur = (status.get(1), status.get(3));
                                 if cur != last {
                                     last = cur;
                                     since = Instant::now();
-                                } else if since.elapsed() > timeout && in_flight.load(Ordering::SeqCst) {
+                                    cpu_at = cpu_ticks(pid);
+                                } else if ((cpu_ticks(pid).saturating_sub(cpu_at)) * 1000 / hz > timeout.as_millis() as u64 || since.elapsed() > timeout * 20) && in_flight.load(Ordering::SeqCst) {
                                     hung.store(true, Ordering::SeqCst);
                                     // SAFETY: plain kill(2) on our own child.
                                     unsafe { libc::kill(pid, libc::SIGKILL) };
